@@ -273,13 +273,14 @@ def same_object_twice(ctx, rng):
     J.register_drafts()
     pt = b"c04 twice"
     for ai, alg in enumerate(["A128KW", "A128GCMKW", "A256GCMKW", "RSA-OAEP", "ECDH-ES+A128KW", "PBES2-HS256+A128KW", "dir", "ECDH-ES"]):
-        for form in ("flattened", "general"):
+        for form, zipped in (("flattened", False), ("general", False), ("flattened", True), ("general", True)):
             ctx.ev()
             enc = g.RFC_ENCS[(ai + len(form)) % len(g.RFC_ENCS)]
             rk, _ = g.keys_for(alg, enc, "P-256")
-            allow = [alg, enc]
+            allow = [alg, enc, "DEF"] if zipped else [alg, enc]
             cls = j.jwe.FlattenedJSONEncryption if form == "flattened" else j.jwe.GeneralJSONEncryption
-            obj = cls({"enc": enc}, pt, {"jku": "https://example.com/k"} if ai % 2 else None, b"aad" if ai % 3 == 0 else None)
+            # with zip=DEF the plaintext the object holds is compressed for each token anew, never in place
+            obj = cls({"enc": enc, "zip": "DEF"} if zipped else {"enc": enc}, pt, {"jku": "https://example.com/k"} if ai % 2 else None, b"aad" if ai % 3 == 0 else None)
             obj.add_recipient({"alg": alg}, j.key(gen.public_jwk(rk)))
             t1 = call(j.jwe.encrypt_json, obj, None, algorithms=allow)
             if not t1.ok:
@@ -287,9 +288,9 @@ def same_object_twice(ctx, rng):
             snapshot = copy.deepcopy(t1.value)
             t2 = call(j.jwe.encrypt_json, obj, None, algorithms=allow)
             ctx.count("same_object_twice")
-            ctx.nontrivial(("twice", alg, form))
-            ctx.cell("twice", alg, form)
-            case = {"alg": alg, "enc": enc, "form": form, "first_token_as_returned": snapshot}
+            ctx.nontrivial(("twice", alg, form, zipped))
+            ctx.cell("twice", alg, form, "zip" if zipped else "plain")
+            case = {"alg": alg, "enc": enc, "form": form, "zip": zipped, "first_token_as_returned": snapshot}
             if t1.value != snapshot:
                 changed = sorted(k for k in set(snapshot) | set(t1.value) if snapshot.get(k) != t1.value.get(k))
                 ctx.violation("returned-token-changed-by-later-call", f"the token returned by the first encrypt_json ({alg}, {form}) changed in members {changed} when the same "
@@ -301,7 +302,10 @@ def same_object_twice(ctx, rng):
                 d = call(j.jwe.decrypt_json, copy.deepcopy(tok), j.key(rk), algorithms=allow)
                 if not d.ok or d.value.plaintext != pt:
                     ctx.violation(f"token-of-{label}-call-does-not-decrypt", f"after encrypting one object twice ({alg}, {form}) the token of the {label} call does not decrypt: "
-                                  f"{d.exc!r}", case)
+                                  f"{d.exc!r}" + ("" if not d.ok else f" (plaintext {d.value.plaintext[:40]!r}, {len(d.value.plaintext)} octets, expected {pt!r})"), case)
+            if obj.plaintext != pt:
+                ctx.violation("plaintext-of-the-object-changed-by-encrypt", f"encrypt_json ({alg}, {form}, zip={zipped}) left {obj.plaintext[:40]!r} as the plaintext of the "
+                              f"caller's object, it was {pt!r}", case)
 
 
 def shared_recipient_header(ctx, rng):
